@@ -26,6 +26,7 @@ def generic_coverage(recs, rule, extra=None):
     worst = {}
     sig = set()
     inconc = 0
+    largest = 0
     for st, c, r in recs:
         for t in r.get("tags", []):
             tags[t] = tags.get(t, 0) + 1
@@ -34,9 +35,11 @@ def generic_coverage(recs, rule, extra=None):
                 worst[k] = max(worst.get(k, 0), v)
         if r.get("inconclusive"):
             inconc += 1
+        if r.get("nontrivial") and not r.get("inconclusive") and "N" in c:
+            largest = max(largest, int(c["N"]))
         if r.get("nontrivial"):
             sig.add(tuple(sorted((k, str(v)) for k, v in c.items() if k not in ("id", "timeout", "ticks", "srand", "shuffle"))))
-    d = dict(rule=rule, distinct_nontrivial=len(sig), cases_by_tag=tags, worst_observed=worst, inconclusive_cases=inconc,
+    d = dict(rule=rule, distinct_nontrivial=len(sig), cases_by_tag=tags, worst_observed=worst, inconclusive_cases=inconc, largest_N_judged=largest,
              samples=[" ".join("%s=%s" % kv for kv in c.items()) for st, c, r in recs[::max(1, len(recs) // 6)][:6]])
     if extra:
         d.update(extra)
